@@ -85,6 +85,14 @@ def run(repo, chk, tier):
     check_persistent_state(repo, chk, ["tf_pwa/amp/", "tf_pwa/particle.py", "tf_pwa/breit_wigner.py"])
     chk.trusted_base[:] = ["AST->sympy translator sa/sym.py", "sympy ring normaliser", "checker's reverse-Bessel reference (c15_kernels.ref_poly)", "checker's Wigner reference (cross-checked against sympy)"]
     chk.info("not decided: the end-to-end assembly of the amplitude (einsum over helicities, sum over chains), the sign (-1)^J that the angle conventions induce, identical-particle symmetrisation")
+    # the couplings the model uses are the ones it was given (set_params -> set_all): a coupling of exactly 0 included (shared with C16)
+    from .c16 import clause_setall
+
+    clause_setall(repo, chk)
+    # the helicity angle theta_k entering P_J(cos theta_k) is finite for every configuration (shared with C01)
+    from .c01_domain import check_acos_domain
+
+    check_acos_domain(repo, chk)
     cg_matrix(repo, chk)
     barrier(repo, chk)
     barrier_options(repo, chk)
